@@ -95,6 +95,43 @@ class Mod:
           return n
     return None
 
+  def dict_attrs(self, cls):
+    """{attr: per_instance} for attributes that hold a dict: created per instance (dataclass default_factory=dict,
+    or assigned in __init__) or once at class level (`x = {}`, `x: ClassVar[...] = {}`: shared by all instances)."""
+    out = {}
+    c = self.classes[cls]
+    for n in c.body:
+      tgt = val = None
+      if isinstance(n, ast.Assign) and isinstance(n.targets[0], ast.Name):
+        tgt, val = n.targets[0].id, n.value
+      elif isinstance(n, ast.AnnAssign) and isinstance(n.target, ast.Name) and n.value is not None:
+        tgt, val = n.target.id, n.value
+      if tgt is None:
+        continue
+      if (isinstance(val, ast.Dict) and not val.keys) or (isinstance(val, ast.Call) and ast.unparse(val.func) == 'dict' and
+                                                           not val.args and not val.keywords):
+        out[tgt] = False
+      elif isinstance(val, ast.Call) and 'field' in ast.unparse(val.func) and \
+          any(k.arg == 'default_factory' and ast.unparse(k.value) == 'dict' for k in val.keywords):
+        out[tgt] = True
+    init = self.method(cls, '__init__')
+    if init is not None:
+      for n in ast.walk(init):
+        if isinstance(n, ast.Assign) and isinstance(n.targets[0], ast.Attribute) and \
+            ast.unparse(n.targets[0].value) == 'self' and isinstance(n.value, ast.Dict) and not n.value.keys:
+          out[n.targets[0].attr] = True
+    return out
+
+  def add_instance(self, name, cls, per_thread):
+    """Declares a synthetic object `name` of class `cls`; per_thread: every thread works on its own instance."""
+    self.globals[name] = ('obj', cls)
+    if per_thread:
+      self.thread_instances = getattr(self, 'thread_instances', set()) | {name}
+
+  def instance_is_private(self, name):
+    kind = self.globals.get(name)
+    return name in getattr(self, 'thread_instances', set()) or (kind and kind[0] == 'obj' and self.is_thread_local(kind[1]))
+
   def stack_attrs(self, cls):
     """{attr: per_instance} for attributes initialised with an empty list.  A list created at class level is ONE
     object shared by all instances and - for a threading.local subclass - by all threads; a list created in __init__
@@ -183,6 +220,14 @@ class Compiler:
     loc = (mod.short, name, sub)
     if loc in self.locs:
       return loc
+    if kind[0] == 'obj' and isinstance(sub, tuple):
+      # (dict attribute, key token): one cell per key; per-instance dicts of a per-thread instance are private
+      attr, _ = sub
+      per_instance = mod.dict_attrs(kind[1])[attr]
+      self.locs[loc] = MISSING
+      if per_instance and mod.instance_is_private(name):
+        self.thread_local.add(loc)
+      return loc
     if kind[0] == 'obj' and sub in mod.stack_attrs(kind[1]):
       per_instance = mod.stack_attrs(kind[1])[sub]
       cells = [(mod.short, name, f'{sub}#len')] + [(mod.short, name, f'{sub}#{j}') for j in range(STACK_DEPTH)]
@@ -199,7 +244,7 @@ class Compiler:
       if sub not in d:
         raise Unsupported(f'{mod.short}.{name}.{sub}: no constant initial value found')
       self.locs[loc] = enc(d[sub])
-      if mod.is_thread_local(kind[1]):
+      if mod.instance_is_private(name):
         self.thread_local.add(loc)
     elif kind[0] == 'counter':
       self.locs[loc] = 0
@@ -248,6 +293,15 @@ class Compiler:
       for v in vals[1:]:
         out = ('and' if isinstance(node.op, ast.And) else 'or', out, v)
       return out
+    if isinstance(node, ast.Compare) and len(node.ops) == 1 and isinstance(node.ops[0], (ast.In, ast.NotIn)):
+      target = node.comparators[0]
+      name = self.obj_dict(target, env, mod)
+      if name is None and isinstance(target, ast.Name) and mod.globals.get(target.id, ('',))[0] == 'cache':
+        name = target.id
+      if name is None:
+        raise Unsupported('membership test ' + ast.unparse(node))
+      got = self.keyed_load(name, self.expr(node.left, env, mod), mod, node.lineno)
+      return ('ne' if isinstance(node.ops[0], ast.In) else 'eq', got, ('const', MISSING))
     if isinstance(node, ast.Compare) and len(node.ops) == 1:
       a = self.expr(node.left, env, mod)
       b = self.expr(node.comparators[0], env, mod)
@@ -260,14 +314,56 @@ class Compiler:
       return ('add', self.expr(node.left, env, mod), self.expr(node.right, env, mod))
     if isinstance(node, ast.Subscript):
       return self.subscript_load(node, env, mod)
+    if isinstance(node, ast.Tuple) and node.elts:
+      vals = [self.expr(e, env, mod) for e in node.elts]
+      return vals[-1]                                   # an entry tuple stands for its payload (last component)
     if isinstance(node, ast.IfExp):
       return ('ite', self.expr(node.test, env, mod), self.expr(node.body, env, mod), self.expr(node.orelse, env, mod))
     if isinstance(node, ast.Call):
       return self.call(node, env, mod)
     raise Unsupported('expression ' + ast.unparse(node)[:60])
 
+  def obj_dict(self, node, env, mod):
+    """(object name, attr) when `node` is `<object>.<dict attribute>` (also through `self`), else None."""
+    if not isinstance(node, ast.Attribute):
+      return None
+    base = node.value
+    if isinstance(base, ast.Name) and base.id in env and env[base.id][0] == 'global':
+      base = ast.Name(id=env[base.id][1])
+    if isinstance(base, ast.Name) and mod.globals.get(base.id, ('',))[0] == 'obj' and \
+        node.attr in mod.dict_attrs(mod.globals[base.id][1]):
+      return base.id, node.attr
+    return None
+
+  def dict_cell(self, mod, name, k):
+    """loc of cache[k]: name is a module-level dict, or (object, attr) for a dict attribute."""
+    if isinstance(name, tuple):
+      return self.declare(mod, name[0], (name[1], k))
+    return self.declare(mod, name, k)
+
+  def keyed_load(self, name, key, mod, lineno):
+    """tmp holding cache[key] or MISSING (no KeyError): dispatch on the thread-private key, one load per key token."""
+    out = self.tmp()
+    self.emit('store', ('tmp', out), ('const', MISSING), lineno)
+    ends = []
+    for k in self.keys:
+      br = self.emit('br', ('eq', key, ('const', k)), None, None, lineno)
+      self.ops[br][2] = self.here()
+      self.emit('load', out, self.dict_cell(mod, name, k), lineno)
+      ends.append(self.emit('jmp', None, lineno))
+      self.ops[br][3] = self.here()
+    for j in ends:
+      self.ops[j][1] = self.here()
+    return ('tmp', out)
+
   def cache_loc(self, node, env, mod):
-    """(global name, key expr) for cache[key] where cache is a module-level dict."""
+    """(dict, key expr) for cache[key] where cache is a module-level dict or a dict attribute of an object."""
+    inner = node.value
+    if isinstance(inner, ast.Subscript) and self.obj_dict(inner.value, env, mod):
+      node = inner                        # d[k][i]: the entry itself stands for its components
+    od = self.obj_dict(node.value, env, mod)
+    if od is not None:
+      return od, self.expr(node.slice, env, mod)
     if isinstance(node.value, ast.Name) and mod.globals.get(node.value.id, ('',))[0] == 'cache':
       key = node.slice
       if isinstance(key, ast.Tuple):
@@ -283,7 +379,7 @@ class Compiler:
     for k in self.keys:
       br = self.emit('br', ('eq', key, ('const', k)), None, None, node.lineno)
       self.ops[br][2] = self.here()
-      self.emit('load', out, self.declare(mod, name, k), node.lineno)
+      self.emit('load', out, self.dict_cell(mod, name, k), node.lineno)
       end_jumps.append(self.emit('jmp', None, node.lineno))
       self.ops[br][3] = self.here()
     self.emit('fail', 'KeyError', node.lineno)            # unknown key: treated as missing
@@ -313,6 +409,18 @@ class Compiler:
     fname = ast.unparse(f)
     if fname in ('threading.get_ident', 'get_ident') and not node.args:
       return ('tid',)
+    if fname == 'id' and len(node.args) == 1:
+      return self.expr(node.args[0], env, mod)          # objects are their identity tokens
+    if isinstance(f, ast.Attribute) and isinstance(f.value, ast.Name) and f.value.id in env and \
+        env[f.value.id][0] == 'global' and mod.globals.get(env[f.value.id][1], ('',))[0] == 'obj':
+      cls = mod.globals[env[f.value.id][1]][1]
+      meth = mod.method(cls, f.attr)
+      args = [self.expr(a, env, mod) for a in node.args]
+      if meth is not None:
+        return self.inline(meth, [env[f.value.id]] + args, {}, mod, node.lineno)
+      # a callable stored on the object (e.g. the user's traversal function): thread-private work
+      self.emit('local', node.lineno)
+      return ('const', NONE)
     if isinstance(f, ast.Attribute) and f.attr == 'pop' and not node.args:
       sb = self.stack_base(f.value, env, mod)
       if sb is not None:
@@ -471,13 +579,30 @@ class Compiler:
         for k in self.keys:
           br = self.emit('br', ('eq', key, ('const', k)), None, None, st.lineno)
           self.ops[br][2] = self.here()
-          self.emit('store', self.declare(mod, name, k), val, st.lineno)
+          self.emit('store', self.dict_cell(mod, name, k), val, st.lineno)
           ends.append(self.emit('jmp', None, st.lineno))
           self.ops[br][3] = self.here()
         for j in ends:
           self.ops[j][1] = self.here()
         return
       raise Unsupported('assignment ' + ast.unparse(st)[:60])
+    if isinstance(st, ast.Delete) and len(st.targets) == 1 and isinstance(st.targets[0], ast.Subscript):
+      name, key = self.cache_loc(st.targets[0], env, mod)
+      got = self.keyed_load(name, key, mod, st.lineno)
+      br = self.emit('br', ('eq', got, ('const', MISSING)), None, None, st.lineno)
+      self.ops[br][2] = self.here()
+      self.raise_('KeyError', st.lineno)
+      self.ops[br][3] = self.here()
+      ends = []
+      for k in self.keys:
+        b2 = self.emit('br', ('eq', key, ('const', k)), None, None, st.lineno)
+        self.ops[b2][2] = self.here()
+        self.emit('store', self.dict_cell(mod, name, k), ('const', MISSING), st.lineno)
+        ends.append(self.emit('jmp', None, st.lineno))
+        self.ops[b2][3] = self.here()
+      for j in ends:
+        self.ops[j][1] = self.here()
+      return
     if isinstance(st, ast.If):
       c = self.expr(st.test, env, mod)
       br = self.emit('br', c, None, None, st.lineno)
@@ -596,7 +721,12 @@ def _stub_sig(comp, args, lineno):
   return ('sig', args[0])
 
 
-STUBS = {'_get_signature_uncached': _stub_sig, '_get_type_hints_uncached': _stub_sig}
+def _stub_true(comp, args, lineno):
+  comp.emit('local', lineno)
+  return ('const', TRUE)
+
+
+STUBS = {'_get_signature_uncached': _stub_sig, '_get_type_hints_uncached': _stub_sig, 'is_internable': _stub_true}
 PURE_CALLS = {'_location_provider', 'frozenset', 'HistoryEntry'}
 
 
